@@ -7,4 +7,4 @@ gen_files = sys.argv[2:]
 head=open('head.txt').read().replace("verus! {","verus! {\nglobal size_of usize == 8;\n")
 b=''.join(open(f).read()+"\n" for f in base_files)
 g=''.join(open(f).read()+"\n" for f in gen_files)
-open(out,'w').write(head+"pub mod base {\nuse super::*;\n"+b+"}\npub mod gen {\nuse super::*;\nuse super::base::*;\nbroadcast use {vector_consts, sz_prims, as_bytes_u8, slice_len_bound, val_bytes_u8, val_bytes_u16, val_bytes_u32, sz_prims2, align_u8};\n"+g+"}\n} fn main(){}\n")
+open(out,'w').write(head+"pub mod base {\nuse super::*;\n"+b+"}\npub mod gen {\nuse super::*;\nuse super::base::*;\nbroadcast use {vector_consts, sz_prims, as_bytes_u8, slice_len_bound, val_bytes_u8, val_bytes_u16, val_bytes_u32, sz_prims2, align_u8, val_bytes_usize, sz_usize, align_usize};\n"+g+"}\n} fn main(){}\n")
